@@ -23,7 +23,11 @@ ENGINES = [
 NOTES = ("Contract-based deductive verification of the real code. ./check <id> exits 0 (all obligations discharged; KNOWN-FINDING lines allowed), "
          "1 (VIOLATION line) or 2 (undecided: tool failure / lost anchor / resource limit; never a VIOLATION). "
          "Known findings: /verif/known_findings.json. Scratch copies live under /tmp/msql-verif-scratch and are removed by each run. "
-         "Seeded property-breaking changes used to test the checks: /verif/seeded/.")
+         "Seeded property-breaking changes used to test the checks: /verif/seeded/. "
+         "Every check also verifies the Verus units of the other properties as watch-only auxiliaries and, when any proof leg fails or is "
+         "undecided, runs a bounded witness search (native/w_server.rs) for a concrete failing conversation; the witness search never decides "
+         "a property on a tree whose obligations are all discharged. The thorough tier adds the witness scenarios as labelled bounded checks "
+         "and re-runs the check against the seeded changes of its property (machinery self-test).")
 
 V = "Verus proof on text extracted from /repo each run"
 K = "Kani/CBMC contract harness, full-domain symbolic"
@@ -41,21 +45,21 @@ CLAIMS = {
         "technique": V + " (run: per-iteration assertion shim.log == log0 + dispatch(cmd) for all nine arms) + " + K + " (commands::parse == command table, payload length symbolic <= 2^40)",
         "design_ref": "DESIGN.md section 6 C02",
         "text": "commands::parse is proved equal to the protocol's command table for every payload (variant, slices by pointer and length, little-endian ids, Err for unknown/empty/truncated). The real run loop is proved to append to the ghost shim log exactly dispatch(cmd): one callback per shim-bound command with the verbatim payload slice, none for PING/FIELD_LIST/SELECT @@/QUIT/SEND_LONG_DATA, USE -> on_init(bare(..)), non-UTF-8 text -> Err before any callback.",
-        "note": "Assumed: str::from_utf8 (uninterpreted validity predicate), the `USE` name trimming chain trim/trim_end_matches/trim_matches (uninterpreted function `bare`; std's str methods are not verified), <[u8]>::starts_with and byte-string match (helper specs), the ghost-shim model (each callback logs exactly its arguments).",
+        "note": "Includes C01: the check also runs the inbound reassembly obligations (U1 next, K1 fullpacket/onepacket, bounded N1 for packet()) and counts their clauses as its own -- a command that is not reassembled exactly does not reach its callback verbatim. Assumed: str::from_utf8 (uninterpreted validity predicate), the `USE` name trimming chain trim/trim_end_matches/trim_matches (uninterpreted function `bare`; std's str methods are not verified), <[u8]>::starts_with and byte-string match (helper specs), the ghost-shim model (each callback logs exactly its arguments).",
     },
     "C03": {
         "engine": "verus",
         "technique": V + ": equational strongest postconditions on every writer method (sent' == sent + owed terminator + payloads), typestate invariant of RowWriter with exists/forall ghost trace, hub replies",
         "design_ref": "DESIGN.md section 6 C03",
         "text": "Every method of InitWriter, StatementMetaWriter, QueryResultWriter and RowWriter (except write_row) is proved to extend the packet list by exactly the packets the grammar prescribes: remembered terminator with MORE set on start/complete_one/error and clear on no_more_results/finish, header = count+coldefs+EOF, one packet per ended row, OK(rows) for zero-column sets, shape errors (too few / too many columns) return Err with nothing sent. The hub is proved to answer PING/FIELD_LIST/SELECT @@ itself, to write nothing for CLOSE/SEND_LONG_DATA/QUIT, and to flush at a packet boundary after every command. The default on_init replies OK.",
-        "note": "The induction over arbitrary writer-API programs rests on Rust's ownership discipline (each program is a chain of the proved methods); the composition of the per-method equations into the response grammar is argued in DESIGN.md, not mechanised. RowWriter::write_row is assumed (generic iterator). A shim that returns Ok without using its writer, or that ignores a writer error, is outside the contract. Drop bodies: known findings D10 (C19).",
+        "note": "Includes C04/C05 (U1 framing machine clauses count: a mis-framed or mis-numbered response is not conformant). The induction over arbitrary writer-API programs rests on Rust's ownership discipline (each program is a chain of the proved methods); the composition of the per-method equations into the response grammar is argued in DESIGN.md, not mechanised. RowWriter::write_row is assumed (generic iterator). A shim that returns Ok without using its writer, or that ignores a writer error, is outside the contract. Drop bodies: known findings D10 (C19).",
     },
     "C04": {
         "engine": "verus",
         "technique": V + ": PacketConn::{write, maybe_end_packet, end_packet, flush} refine an abstract framing machine (step_write/step_end) defined from the property; lemmas fold the machine to frame(m) for any chunking; unframe(frame(m)) == m",
         "design_ref": "DESIGN.md section 6 C04",
         "text": "For every buffer and every state the real write/end_packet/flush bodies are proved to implement step_write/step_end exactly (header length == payload length, split at 0xFFFFFF payload bytes, empty terminator after an exact multiple, sequence id per packet); std's write_all loop (transcribed) is proved against write's contract; pure lemmas show that any sequence of writes followed by end puts frame(message) on the wire and that a client-side unframe recovers the message.",
-        "note": "Assumed: Transport::write_all appends exactly the buffer (std Write semantics), byteorder::LittleEndian::write_u24 (checked by Kani k6_byteorder_le), std's write_all transcription matches the installed std.",
+        "note": "Also counts [C07.row.packet] (RowWriter::end_row hands the whole buffered row to the connection: 'a row larger than 16 MiB arrives intact'). Assumed: Transport::write_all appends exactly the buffer (std Write semantics), byteorder::LittleEndian::write_u24 (checked by Kani k6_byteorder_le), std's write_all transcription matches the installed std.",
     },
     "C05": {
         "engine": "verus+kani",
@@ -76,14 +80,14 @@ CLAIMS = {
         "technique": V + " (write_col/end_row: NULL bitmap bit-vector lemmas, row = 0x00 ++ bitmap ++ values, for any column count) + " + K + " (every to_mysql_bin implementation, symbolic value x column type x flags)",
         "design_ref": "DESIGN.md section 6 C07",
         "text": "RowWriter is proved to build binary rows as [0x00] ++ bitmap ++ encodings with bit (i+2)%8 of byte (i+2)/8 set iff cell i is NULL, bitmap length (n+9)/8, NOT NULL columns refuse NULL, too many columns refused; each encoder is proved by CBMC to write exactly the protocol's fixed-width/length-encoded/temporal form or to return Err with nothing written, never to panic.",
-        "note": "Assumed in Verus: the abstract ToMysqlValue contract (the Kani harnesses discharge it per implementing type); Vec sink. RowWriter::write_row assumed. After a write_col error the row writer's state is unspecified (a retry may produce a malformed row; see DESIGN.md D16).",
+        "note": "Also counts the column-definition clauses of U2 ([C09.coldefs], [C09.count]): rows are decoded with the advertised column types and flags. Assumed in Verus: the abstract ToMysqlValue contract (the Kani harnesses discharge it per implementing type); Vec sink. RowWriter::write_row assumed. After a write_col error the row writer's state is unspecified (a retry may produce a malformed row; see DESIGN.md D16).",
     },
     "C08": {
         "engine": "verus+kani",
         "technique": V + " (Params::next against a functional spec of the EXECUTE parameter block) + " + K + " (execute offsets; ValueInner::parse_from for every type code; From<Value> conversions)",
         "design_ref": "DESIGN.md section 6 C08",
         "text": "Params::next is proved, for every well-formed block, to split the NULL bitmap, consume the flag byte, rebind types when present, and yield per parameter NULL / long data / the inline value consuming exactly its bytes, exactly n items. parse_from is proved for all type codes and both signedness flags (value, bytes consumed, Err on short input); conversions to integers, floats, bytes, NaiveDate, NaiveDateTime (4/7/11-byte forms incl. microseconds) and Duration (0/8/12) yield the encoded value.",
-        "note": "Seam: Value::parse_from is a stub in the Verus unit with an uninterpreted value_len; the Kani K3 harnesses prove the concrete facts. HashMap model (vstd).",
+        "note": "Also counts StatementMetaWriter::reply's registry clause (U3): 'exactly as many parameters as the statement declared'. Seam: Value::parse_from is a stub in the Verus unit with an uninterpreted value_len; the Kani K3 harnesses prove the concrete facts. HashMap model (vstd).",
     },
     "C09": {
         "engine": "verus+kani",
@@ -139,14 +143,14 @@ CLAIMS = {
         "technique": V + ": Params::next header step (rebind replaces, reuse keeps and consumes the flag byte) + hub registry steps (only the executed statement's entry is borrowed)",
         "design_ref": "DESIGN.md section 6 C16",
         "text": "Flag non-zero: bound types become exactly the n new pairs; flag zero: bound types unchanged and values decoded from the byte after the flag with the remembered types; ParamParser::new borrows only the executed statement's bound_types; every other statement's entry is unchanged in every arm of run; reply resets an id.",
-        "note": "Binding happens inside Params::next, i.e. when the shim iterates the parameters.",
+        "note": "Also counts StatementMetaWriter::reply's registry clause (U3): a re-prepared id starts without stale types. Binding happens inside Params::next, i.e. when the shim iterates the parameters.",
     },
     "C17": {
         "engine": "verus+kani",
         "technique": V + " (hm_append chunk concatenation, clear after execute, long-data override in Params::next) + " + K + " (send_long_data offsets)",
         "design_ref": "DESIGN.md section 6 C17",
         "text": "SEND_LONG_DATA appends the chunk to (stmt, param) and changes nothing else, writes nothing, calls nothing; after on_execute returns Ok the statement's long data is empty and other statements are untouched; a parameter with pending long data is delivered as those bytes without consuming the inline stream.",
-        "note": "Same HashMap assumptions as C10.",
+        "note": "Also counts StatementMetaWriter::reply's registry clause (U3): a re-prepared id starts without stale long data. Same HashMap assumptions as C10.",
     },
     "C18": {
         "engine": "verus+kani",
